@@ -25,6 +25,12 @@ def h_op(ctx, opname, D, P):
     if 'neq' in op.tags:
         for idx in np.ndindex(*raw[0][0].shape):
             ctx.assume(raw[0][0][idx] != raw[1][0][idx])
+    if 'distinct' in op.tags:
+        z = raw[0][0]
+        for p_ in range(z.shape[0]):
+            for i in range(z.shape[1]):
+                for j in range(i):
+                    ctx.assume(z[p_, i] != z[p_, j])
     full = O.outputs(op.fn(algopy, *[O.wrap(ctx, algopy, a, r) for a, r in zip(op.args, raw)]))
     for p in range(P):
         single = []
@@ -42,10 +48,70 @@ def h_op(ctx, opname, D, P):
                 ctx.fact(not leak, 'direction %d of out%d depends on other directions: %s' % (p, k, leak[:3]))
 
 
+def h_reverse(ctx, pname, D, P):
+    """reverse sweep: the adjoint of direction p of a P-direction sweep equals the
+    single-direction sweep on direction p"""
+    from .c03 import Namespace, make_consts, make_curve, get_prog, record, pullback_guard
+    from .common import plain
+    algopy = symx.load_algopy()
+    prog = get_prog(pname)
+    arg, X = make_curve(ctx, prog, 'x', D, P)
+    A = Namespace(algopy, make_consts(ctx, prog))
+    cg, fx, fy = record(ctx, algopy, A, prog, O.wrap(ctx, algopy, arg, X))
+    Y = plain(fy.x.data)
+    YB = np.empty(Y.shape, dtype=object)
+    for idx in np.ndindex(*Y.shape):
+        YB[idx] = ctx.var('ybar%s' % list(idx))
+    if not pullback_guard(ctx, algopy, cg, [O.wrap(ctx, algopy, O.Arg('utpm', Y.shape[2:]), YB)]):
+        return
+    XB = plain(fx.xbar.data).copy()
+    for p in range(P):
+        cg1, fx1, fy1 = record(ctx, algopy, A, prog, O.wrap(ctx, algopy, arg, X[:, p:p + 1]))
+        ctx.eq(plain(fy1.x.data)[:, 0], Y[:, p], 'forward value dir %d' % p)
+        if not pullback_guard(ctx, algopy, cg1, [O.wrap(ctx, algopy, O.Arg('utpm', Y.shape[2:]), YB[:, p:p + 1])]):
+            return
+        ctx.eq(XB[:, p], plain(fx1.xbar.data)[:, 0], 'xbar dir %d' % p)
+        if ctx.mode == 'sym':
+            sup = O.support(O.flat_syms(XB[:, p]))
+            leak = sorted(n for n in sup if re.match(r'^(x|ybar)\[(\d+), (\d+)', n) and int(re.match(r'^(x|ybar)\[(\d+), (\d+)', n).group(3)) != p)
+            ctx.fact(not leak, 'adjoint of direction %d depends on other directions: %s' % (p, leak[:3]))
+
+
+def h_jacobian_dirs(ctx, pname, D, P):
+    """cg.jacobian of a Taylor-polynomial argument: direction p of the result equals
+    the call on direction p alone"""
+    from .c03 import Namespace, make_consts, get_prog, record
+    from .c05 import make_value
+    from .common import plain
+    algopy = symx.load_algopy()
+    prog = get_prog(pname)
+    A = Namespace(algopy, make_consts(ctx, prog))
+    rarg, R = make_value(ctx, prog, ('utpm', 1, 1), 'r')
+    cg, fx, fy = record(ctx, algopy, A, prog, O.wrap(ctx, algopy, rarg, R))
+    carg = O.Arg('utpm', prog.shape, prog.dom)
+    C = O.make_input(ctx, carg, 'c', D, P)
+    J = plain(cg.jacobian(O.wrap(ctx, algopy, carg, C)).data).copy()
+    for p in range(P):
+        Jp = plain(cg.jacobian(O.wrap(ctx, algopy, carg, C[:, p:p + 1])).data)
+        ctx.eq(J[:, p], Jp[:, 0], 'jacobian(curve) dir %d' % p)
+
+
+REV_PROGS = ['x*x', 'x/(1+x*x)', 'exp', 'buffer', 'dot(mat,mat)', 'dot(mat,vec)', 'outer', 'inv', 'solve', 'det', 'logdet',
+             'sum(x*exp(x)/(1+x0*x1)+sin(x)*x[::-1])', 'prod', 'absolute']
+
+
 def units(tier, seed):
     out = []
     D, P = (3, 2) if tier == 'quick' else (4, 3)
     for op in O.catalogue():
+        if 'c14only' in op.tags:
+            continue
         out.append(Unit('C11/%s/D%d,P%d' % (op.name, D, P), 'symx.props.c11', 'h_op',
-                        {'opname': op.name, 'D': D, 'P': P}, {'property': PROP}))
+                        {'opname': op.name, 'D': D, 'P': P}, {'property': PROP, 'path_budget': 300}))
+    for pn in ['x*x[::-1]', 'x[1:]*x[:-1]', 'exp(dot)']:
+        out.append(Unit('C11/jacobian(Taylor argument)/%s/D2,P2' % pn, 'symx.props.c11', 'h_jacobian_dirs', {'pname': pn, 'D': 2, 'P': 2},
+                        {'property': PROP}))
+    for pn in REV_PROGS:
+        out.append(Unit('C11/reverse/%s/D2,P2' % pn, 'symx.props.c11', 'h_reverse', {'pname': pn, 'D': 2, 'P': 2},
+                        {'property': PROP, 'path_budget': 300, 'float_tol': 1e-6}))
     return out
